@@ -1,0 +1,15 @@
+//go:build verif
+
+package http1
+
+// VerifYield, when set, is called at the lock boundaries of the host client's
+// connection pool (acquire, release, close, deliver-to-waiter, cancel) so that a
+// test harness can perturb the interleaving. It only exists under the verif
+// build tag; without the tag verifYield is an empty function.
+var VerifYield func(point string)
+
+func verifYield(point string) {
+	if f := VerifYield; f != nil {
+		f(point)
+	}
+}
